@@ -37,6 +37,19 @@ OMITTABLE = {"StartTime": 0, "Multiplier": None, "KeySounds": []}
 INT_T, FLOAT_T = "int", "float"
 
 
+def omittable(ctx) -> Dict[str, object]:
+    """format default per omittable key; where the format documentation at hand does not state one, the library's own
+    declared default of the field is the oracle (an omitted key must not yield a value the item class would not default to)"""
+    out = dict(OMITTABLE)
+    M = ctx.M
+    try:
+        d = M.item_fields(ITEMS["svs"])["multiplier"][1]
+        out["Multiplier"] = M.lit(M.classes[ITEMS["svs"]].mod, d) if isinstance(d, ast.AST) else d
+    except Exception:
+        pass
+    return out
+
+
 def fmt():
     return json.loads((TABLES / "qua_format.json").read_text())
 
@@ -268,6 +281,17 @@ def chart_reader_table(ctx, slot: str):
     for n in walk_no_nested(fn.node):
         if isinstance(n, ast.ListComp) and len(n.generators) == 1 and isinstance(n.generators[0].target, ast.Name):
             return get_calls_table(ctx, fn, n.elt, n.generators[0].target.id), fn, n
+    # routed through the vectorised list reader: <List>.from_yaml(arg)
+    for n in walk_no_nested(fn.node):
+        if isinstance(n, ast.Call) and call_name(n) == "from_yaml" and unparse(n.func.value) == LISTS[slot].rsplit(".", 1)[1]:
+            st, issues, und, built, rfn, renames = reader_frame_table(ctx, slot)
+            if und:
+                return None, fn, None
+            tab = {}
+            for c, cs in st.items():
+                raw = renames.get(c, c)
+                tab[c] = (cs.expr, {raw: cs.default if cs.filled else None}, [] if cs.present else [raw])
+            return tab, fn, n
     return None, fn, None
 
 
@@ -633,6 +657,7 @@ def rule_r6(ctx) -> List[R.Inst]:
     M = ctx.M
     rid = "C06.R6"
     insts = []
+    OMITTABLE = omittable(ctx)
     for slot in ("hits", "holds"):
         st, issues, und, built, fn, renames = reader_frame_table(ctx, slot)
         file = M.mods[fn.mod].rel
@@ -707,12 +732,49 @@ def rule_r6(ctx) -> List[R.Inst]:
     return insts
 
 
+def rule_r7(ctx) -> List[R.Inst]:
+    """read_file hands read() the text without doubling line breaks; write_file writes what write() returns"""
+    M = ctx.M
+    rid = "C06.R7"
+    rf = M.fn(QUAMAP + ".read_file")
+    rd = M.fn(QUAMAP + ".read")
+    file = M.mods[rf.mod].rel
+    joins_nl = any(isinstance(n, ast.Call) and call_name(n) == "join" and isinstance(n.func.value, ast.Constant) and
+                   n.func.value.value == "\n" for n in ast.walk(rd.node))
+    src = None
+    for n in walk_no_nested(rf.node):
+        if isinstance(n, ast.Assign) and isinstance(n.targets[0], ast.Name):
+            src = n
+    insts = []
+    if src is None:
+        return [R.undec(rid, "read_file", file, rf.node.lineno, "source of the lines not found")]
+    t = unparse(src.value)
+    keeps_terminators = ".readlines()" in t or t.startswith("list(f") or t in ("[line for line in f]", "[l for l in f]")
+    if keeps_terminators and joins_nl:
+        insts.append(R.viol(rid, "read_file", file, src.lineno,
+                            f"'{t}' keeps the line terminators and read() joins the lines with another '\\n': every line break is "
+                            f"doubled, which turns a folded (wrapped) YAML scalar into one with literal newlines",
+                            construct=f"read_file: {t}"))
+    elif ".read()" in t or ".splitlines()" in t or "rstrip" in t or "strip(" in t:
+        insts.append(R.ok(rid, "read_file", file, src.lineno, idiom=f"{t}: text or terminator-free lines"))
+    else:
+        insts.append(R.undec(rid, "read_file", file, src.lineno, f"line source '{t}' not recognised"))
+    wf = M.fn(QUAMAP + ".write_file")
+    ok_w = any(isinstance(n, ast.Call) and call_name(n) == "write" and n.args and unparse(n.args[0]) == "self.write()"
+               for n in ast.walk(wf.node))
+    insts.append(R.ok(rid, "write_file", file, wf.node.lineno, idiom="f.write(self.write())") if ok_w else
+                 R.viol(rid, "write_file", file, wf.node.lineno, "write_file does not write the text write() returns",
+                        construct="QuaMap.write_file"))
+    return insts
+
+
 SPECS = [
     RuleSpec("C06.R1", rule_r1, 21, "A1", "metadata key table: same key, same field, inverse transform, own default"),
     RuleSpec("C06.R2", rule_r2, 30, "A1", "object codecs compose to the identity: list, item and chart-level readers against the list/item writers"),
     RuleSpec("C06.R3", rule_r3, 4, "A2", "emitted keys ⊆ format keys ⊇ consumed keys, numeric keys typed"),
     RuleSpec("C06.R4", rule_r4, 3, "A1", "EndTime presence <=> hold, on both sides"),
     RuleSpec("C06.R5", rule_r5, 3, "A1", "three sections: popped by read, set by write, bound to the same lists"),
+    RuleSpec("C06.R7", rule_r7, 2, "A1", "read_file / write_file pass the text through unchanged (no doubled line breaks)"),
     RuleSpec("C06.R6", rule_r6, 11, "A8", "defaults for omitted keys are applied before use and leave no NaN"),
 ]
 
